@@ -105,10 +105,9 @@ func c14World(rc *kernel.RunCtx) {
 	maxSteps := rc.Param("max_steps", 1500)
 	k := kernel.New(t, kernel.M1, 1<<30)
 	kernel.Active = k
-	kn := drawKnobs(t)
+	kn := drawKnobs(t, rc.Run)
 	kn.OwnBuf = false
-	sizes := []int{16, 64, 512, 4096}
-	kn.BufSize = sizes[t.Pick([]int{4, 3, 2, 1}, "bufsize14")]
+	kn.BufSize = blockBufSize(rc.Run, []int{16, 16, 64, 64, 512, 4096})
 	dev := t.Chance(1, 4, "devmode")
 	simsync.NewEpoch()
 	templruntime.DefaultBufferSize = kn.BufSize
